@@ -46,7 +46,7 @@ ATTRS = [
 ]
 RULES = [["triangular", 1], ["triangular", 4], ["triangular", 8], ["triangular", 12], ["gaussian", 2], ["gaussian", 5], ["gaussian", 10]]
 TREE_CFG = [["ball", "spherical", "haversine"], ["ball", "cartesian", "euclidean"], ["kd", "cartesian", "minkowski"], ["kd", "spherical", "minkowski"]]
-OPS = ["attr", "attr", "attr", "attr", "areas", "total_area", "to_xarray", "gdf", "poly", "line", "tree", "chunk", "isel", "circle", "const_lat", "dual"]
+OPS = ["attr", "attr", "attr", "attr", "areas", "total_area", "to_xarray", "gdf", "poly", "line", "tree", "chunk", "isel", "circle", "const_lat", "dual", "repr", "validate", "copy", "eq"]
 
 
 def shard_env(tier, k, n):
@@ -366,6 +366,20 @@ def _apply(g, o):
         return _norm([np.asarray(sub._ds["subgrid_face_indices"].values), np.asarray(sub.node_lon.values)])
     if op == "const_lat":
         return _norm(np.asarray(g.get_faces_at_constant_latitude(o["lat"])))
+    if op == "repr":
+        repr(g)  # an inventory view (lists what is stored): executed as part of the history, not compared
+        return ("py", "repr-called")
+    if op == "validate":
+        import contextlib
+        import io
+
+        with contextlib.redirect_stdout(io.StringIO()):
+            return _norm(bool(g.validate()))
+    if op == "copy":
+        c = g.copy()
+        return _norm([np.asarray(c.face_node_connectivity.values), np.asarray(c.node_lon.values), np.asarray(c.node_lat.values), bool(c == g)])
+    if op == "eq":
+        return _norm([bool(g == g), bool(g != g)])
     if op == "dual":
         try:
             d = g.get_dual()
